@@ -9,7 +9,8 @@ LEVEL = 'exploration'
 RULE = ('case = (programs of 2-3 threads, each 1-2 pformat calls on: an instance of a class whose printer is registered by '
         'name and not yet promoted (fresh class and key per case, so the first use happens in every schedule), an instance '
         'of a subclass of such a class, of a directly registered class, of an unregistered class, long strings that are split into '
-        'words and measured (after a text of 300 other words has been printed in the process), of a fresh struct-sequence '
+        'words and measured (after a text of 300 other words has been printed in the process), one shared instance of a class with '
+        '__repr__ = pretty_repr reached through the repr() of an unregistered holder, of a fresh struct-sequence '
         'look-alike (field names resolved and cached on first print), lists/dicts holding them, optionally with per-call width / '
         'ribbon settings that differ between the threads; '
         'schedule = list of (thread, number of package lines to run)). A deterministic scheduler built on sys.settrace '
@@ -26,7 +27,7 @@ ASSUMPTIONS = ['interleavings are explored at package-line granularity under the
 BUDGET = {'quick': {'random': 1600, 'shards': 16}, 'thorough': {'random': 60000, 'shards': 16}}
 
 KINDS = ['lazy', 'sub', 'direct', 'unreg', 'list-lazy', 'list-sub', 'dict-lazy', 'lazy2', 'subsub', 'seq', 'list-seq',
-         'list-direct@12', 'list-lazy@9', 'list-sub@25', 'dict-lazy@7', 'list-direct@60', 'str@40', 'str2@30', 'list-str@40']
+         'list-direct@12', 'list-lazy@9', 'list-sub@25', 'dict-lazy@7', 'list-direct@60', 'str@40', 'str2@30', 'list-str@40', 'sharedrepr', 'list-sharedrepr']
 PAIRS = [
     (['lazy'], ['lazy']), (['list-lazy'], ['list-lazy']), (['sub'], ['lazy']), (['lazy'], ['sub']), (['sub'], ['sub']),
     (['list-sub'], ['list-lazy']), (['dict-lazy'], ['list-sub']), (['lazy', 'lazy'], ['sub']), (['subsub'], ['sub']),
@@ -34,6 +35,7 @@ PAIRS = [
     (['seq'], ['seq']), (['list-seq'], ['seq']), (['seq', 'lazy'], ['list-seq']),
     (['list-direct@12'], ['list-direct@40']), (['list-lazy@9', 'list-lazy@30'], ['list-sub@20']), (['dict-lazy@7'], ['list-seq@60']),
     (['str@40'], ['str2@40']), (['str@40'], ['str@40']), (['list-str@30'], ['str2@40']),
+    (['sharedrepr'], ['sharedrepr']), (['list-sharedrepr'], ['sharedrepr', 'lazy']),
 ]
 # long strings are split into words and measured while they are laid out; before such programs run, a text of many other
 # words is printed (the process has printed unrelated things before)
@@ -66,10 +68,17 @@ def fresh():
         return 'SeqLike(alpha=%r, beta=%r, gamma=%r)' % tuple(self)
     SeqLike = mk('SeqLike', (tuple,), {'n_fields': 3, 'n_sequence_fields': 3, 'n_unnamed_fields': 0, '__repr__': _seq_repr})
     SeqLike.__module__ = 'ppvseq'        # printed name must not depend on the family
+    # one instance of a class with __repr__ = pretty_repr, shared by all threads and reached through the repr() of an
+    # unregistered holder: pretty_repr runs for the same object in two threads at once
+    from prettyprinter import pretty_repr
+    Shared = mk('Shared', (), {'__repr__': pretty_repr})
+    register_pretty(Shared)(lambda v, ctx: 'SHARED')
+    Holder = mk('Holder', (), {'__init__': lambda self, v: setattr(self, 'v', v), '__repr__': lambda self: 'H(%r)' % (self.v,)})
+    shared_obj = Shared()
     register_pretty(mod + '.Lazy')(lambda v, ctx: 'LAZY')
     register_pretty(mod + '.Lazy2')(lambda v, ctx: 'LAZY2')
     register_pretty(Direct)(lambda v, ctx: 'DIRECT')
-    return dict(lazy=Lazy, sub=Sub, subsub=SubSub, lazy2=Lazy2, direct=Direct, unreg=Unreg, seq=SeqLike)
+    return dict(lazy=Lazy, sub=Sub, subsub=SubSub, lazy2=Lazy2, direct=Direct, unreg=Unreg, seq=SeqLike, holder=Holder, shared_obj=shared_obj)
 
 
 def make_value(kind, fam):
@@ -81,6 +90,8 @@ def make_value(kind, fam):
         return fam['seq']((1, 2, 3))
     if kind in STR:
         return STR[kind]
+    if kind == 'sharedrepr':
+        return fam['holder'](fam['shared_obj'])
     return fam[kind]()
 
 
